@@ -376,6 +376,11 @@ func ruleTreeNonNil(c *Ctx, r *R) {
 					return judgeElems(at, x.Args[1:])
 				}
 			case *ast.Ident:
+				// a local slice that only ever grows by appending nodes of trees (elements or whole
+				// child lists)
+				if k.appendsInherited(x, fd, judgeElems) {
+					return true, ""
+				}
 				// a local slice made with the length of a tree's children and filled slot by slot
 				// in a range loop over those children with non-nil values
 				if why := k.mappedCopy(x, fd); why == "" {
@@ -486,4 +491,59 @@ func (k *nnCtx) mappedCopy(id *ast.Ident, fd *ast.FuncDecl) string {
 		return "slice `" + id.Name + "` has slots that are not filled with non-nil nodes"
 	}
 	return ""
+}
+
+// appendsInherited: every assignment to the local slice is `s = append(s, ..)` whose added
+// values are spreads of a tree's children or elements judged non-nil; it starts nil/empty.
+func (k *nnCtx) appendsInherited(id *ast.Ident, fd *ast.FuncDecl, judgeElems func(ast.Node, []ast.Expr) (bool, string)) bool {
+	c := k.c
+	o := c.Obj(id)
+	if o == nil {
+		return false
+	}
+	ok, n := true, 0
+	ast.Inspect(fd.Body, func(m ast.Node) bool {
+		switch x := m.(type) {
+		case *ast.AssignStmt:
+			for i, l := range x.Lhs {
+				li, isId := unparen(l).(*ast.Ident)
+				if !isId || c.Obj(li) != o {
+					continue
+				}
+				n++
+				if len(x.Lhs) != len(x.Rhs) {
+					ok = false
+					continue
+				}
+				rhs := unparen(x.Rhs[i])
+				if isIdent(rhs, "nil") {
+					continue
+				}
+				call, isCall := rhs.(*ast.CallExpr)
+				if !isCall || c.CalleeName(call) != "builtin.append" || len(call.Args) < 1 {
+					ok = false
+					continue
+				}
+				if first, isF := unparen(call.Args[0]).(*ast.Ident); !isF || c.Obj(first) != o {
+					ok = false
+					continue
+				}
+				if call.Ellipsis.IsValid() {
+					if !c.inheritedSlice(call.Args[len(call.Args)-1]) {
+						ok = false
+					}
+					continue
+				}
+				if good, _ := judgeElems(x, call.Args[1:]); !good {
+					ok = false
+				}
+			}
+		case *ast.UnaryExpr:
+			if ui, isId := unparen(x.X).(*ast.Ident); isId && c.Obj(ui) == o && x.Op == token.AND {
+				ok = false
+			}
+		}
+		return true
+	})
+	return ok && n > 0
 }
